@@ -477,6 +477,8 @@ PARTS = [
 try:
     from . import mp_parts
     PARTS.append(_compose.Part("mp", lambda ctx: None, None, theorems=["TDV.MP.delta_at_yield_map"], modules=mp_parts.LEAN_MODULES))
+    PARTS.append(_compose.Part("mp_iter", lambda ctx: None, None, theorems=mp_parts.C05ITER_BY_PROP["C07"],
+                               modules=mp_parts.LEAN_MODULES_C05ITER))
 except ImportError:
     pass
 _compose.assemble(globals(), PARTS, RULE, EXPLANATION, ASSUMPTIONS)
